@@ -39,7 +39,7 @@ func c15Oracle(sp *Spec, x *X, res *mcrt.Result) (string, string) {
 			return "bar-still-running", fmt.Sprintf("%s after Wait: %s", c.Op, c.Res)
 		}
 	}
-	if x.Events["leak"] > 0 {
+	if x.EventCount("leak") > 0 {
 		return "leak", strings.Join(x.Notes, "; ")
 	}
 	return "", ""
